@@ -12,14 +12,14 @@ _BOUNDS_RULE = ("cases = (n, exact superadditive game, knowledge set K ⊇ minim
                 "game not symmetric under any transposition of players; distinct by (game, K, computer)")
 
 PROPS = {
-    "C01": {"lean": "ICG.Props.C01", "streams": [("corr_bounds", "C01")], "rule": _BOUNDS_RULE,
+    "C01": {"lean": "ICG.Props.C01", "streams": [("corr_bounds", "C01"), ("corr_hist", "C01")], "rule": _BOUNDS_RULE,
             "assumptions": ["float rounding is outside the theorems; exact stream uses integer/dyadic values on which float64 arithmetic is exact"],
             "quick_s": 60, "thorough_s": 600},
     "C02": {"lean": "ICG.Props.C02", "streams": [("corr_bounds", "C02")], "rule": _BOUNDS_RULE, "quick_s": 60, "thorough_s": 600},
-    "C03": {"lean": "ICG.Props.C03", "streams": [("corr_bounds", "C03")], "rule": _BOUNDS_RULE, "quick_s": 60, "thorough_s": 600},
+    "C03": {"lean": "ICG.Props.C03", "streams": [("corr_bounds", "C03"), ("corr_hist", "C03")], "rule": _BOUNDS_RULE, "quick_s": 60, "thorough_s": 600},
     "C04": {"lean": "ICG.Props.C04", "streams": [("corr_bounds", "C04")], "rule": _BOUNDS_RULE, "quick_s": 90, "thorough_s": 900},
     "C07": {"lean": "ICG.Props.C07", "streams": [("corr_bounds", "C07")], "rule": _BOUNDS_RULE, "quick_s": 60, "thorough_s": 600},
-    "C08": {"lean": "ICG.Props.C08", "streams": [("corr_bounds", "C08")], "rule": _BOUNDS_RULE, "quick_s": 60, "thorough_s": 600},
+    "C08": {"lean": "ICG.Props.C08", "streams": [("corr_bounds", "C08"), ("corr_hist", "C08")], "rule": _BOUNDS_RULE, "quick_s": 60, "thorough_s": 600},
     "C17": {"lean": "ICG.Props.C17", "streams": [("corr_table", "C17")],
             "rule": ("random histories of 40 public value operations (set / unset / reveal / un-reveal / bulk set / bulk reset / bulk and scalar bound "
                      "writes / copy / negate / getters, ~10% malformed) on n = 1..5 over several live objects; non-trivial = history with ≥ 6 distinct "
